@@ -1642,7 +1642,7 @@ pub fn plan(prop: &str, tier: Tier) -> Option<Plan> {
       })
     }
     "C17" => {
-      let c = if q { 3 } else { 4 };
+      let c = if q { 3 } else { 7 };
       sc.push(composite_scenario(1, c + 1, CAP));
       sc.push(composite_scenario(2, c, CAP));
       Some(Plan {
@@ -1653,7 +1653,7 @@ pub fn plan(prop: &str, tier: Tier) -> Option<Plan> {
       })
     }
     "C11" => {
-      let c = if q { 3 } else { 4 };
+      let c = if q { 3 } else { 6 };
       sc.push(share_scenario(c, CAP));
       sc.push(share_leave_scenario(c, CAP));
       Some(Plan {
@@ -1664,7 +1664,7 @@ pub fn plan(prop: &str, tier: Tier) -> Option<Plan> {
       })
     }
     "C19" => {
-      let c = if q { 3 } else { 4 };
+      let c = if q { 3 } else { 8 };
       for subscribing in [true, false] {
         for delayed in [false, true] {
           sc.push(task_scenario(subscribing, delayed, c, CAP));
@@ -1678,7 +1678,7 @@ pub fn plan(prop: &str, tier: Tier) -> Option<Plan> {
       })
     }
     "C04" => {
-      let c = if q { 2 } else { 3 };
+      let c = if q { 2 } else { 4 };
       for shape in [
         Shape::Merge,
         Shape::Zip,
@@ -1768,7 +1768,7 @@ pub fn plan(prop: &str, tier: Tier) -> Option<Plan> {
       })
     }
     "C14" => {
-      let c = if q { 3 } else { 4 };
+      let c = if q { 3 } else { 6 };
       for w in [Waiter::WaitForEnd, Waiter::ToFuture, Waiter::ToStream] {
         for items in 0..=2 {
           for fail in [false, true] {
@@ -1784,7 +1784,7 @@ pub fn plan(prop: &str, tier: Tier) -> Option<Plan> {
       })
     }
     "C15" => {
-      let c = if q { 3 } else { 4 };
+      let c = if q { 3 } else { 5 };
       for s in [
         vec![vec![Op::CompleteA], vec![Op::Unsubscribe]],
         vec![vec![Op::ErrorA], vec![Op::Unsubscribe]],
